@@ -138,6 +138,22 @@ func c14Cases() []c14Case {
 	for _, w := range wrappers() {
 		out = append(out, c14Case{Desc: "errors.New via " + w.Name, Err: w.F(errors.New("plain failure")), Kind: "plain"})
 	}
+	// messages and data strings with every code point up to U+00FF, separators and astral non-printable runes
+	var exotic []string
+	for cp := rune(1); cp <= 0xff; cp++ {
+		exotic = append(exotic, string(cp))
+	}
+	exotic = append(exotic, "\u2028", "\u2029", "\U000e0001", "\ufffe", "\x1b[31mred\x1b[0m", "a\x00b")
+	for i, x := range exotic {
+		m := "a" + x + "b"
+		out = append(out, c14Case{Desc: fmt.Sprintf("*Error{7,%q}", m), Err: &jrpc2.Error{Code: 7, Message: m}, Kind: "error"})
+		if i%8 == 0 {
+			out = append(out, c14Case{Desc: fmt.Sprintf("errors.New(%q)", m), Err: errors.New(m), Kind: "plain"})
+			out = append(out, c14Case{Desc: fmt.Sprintf("Errorf(9,%q)", m), Err: jrpc2.Errorf(9, "%s", m), Kind: "coder"})
+			d, _ := json.Marshal(m)
+			out = append(out, c14Case{Desc: fmt.Sprintf("*Error{7,m,data=%s}", d), Err: &jrpc2.Error{Code: 7, Message: "m", Data: d}, Kind: "error"})
+		}
+	}
 	out = append(out, c14Case{Desc: "*Error{7,\"after\"} (the client must still be usable)", Err: &jrpc2.Error{Code: 7, Message: "after"}, Kind: "error"})
 	defer func() {}()
 	for _, v := range []struct {
